@@ -162,10 +162,6 @@ def knownRead (t : Tgt) (tok : Token) (after : Nat) (ovfThrow : Bool) (a : Ans) 
        a = .ok (.ts (Int.ofNat (beNat d % 2 ^ 34)) (Int.ofNat (beNat d / 2 ^ 34))) after then
       some "ts-nanoseconds-not-validated"
     else none
-  | .f32, .f64 b =>
-    if (Ieee.isNaN64 b ∨ Ieee.isInf64 b) ∧ a = (if ovfThrow then .err "overflow" else .no after) then
-      some "f64-nan-inf-to-float-overflow"
-    else none
   | _, _ => none
 
 /-- bin target: only the header is read by ReadBinarySize (data presence is checked by ReadBinary) -/
